@@ -820,4 +820,373 @@ namespace vh
     auto p = beParams(t);
     return runSolve<typename BuilderOf<micm::BackwardEulerSolverParameters, L, CSC, KIND>::type>(in, p);
   }
+
+  // ---------------------------------------------------------------- state histories (C11 / C17 / C20)
+  template<class ST>
+  void fillScratch(ST& st, std::size_t integ, double g)
+  {
+    using DM = decltype(st.variables_);
+    st.jacobian_.Fill(g);
+    st.lower_matrix_.Fill(g);
+    st.upper_matrix_.Fill(g);
+    if (integ == 0)
+    {
+      auto* tv = static_cast<micm::RosenbrockTemporaryVariables<DM>*>(st.temporary_variables_.get());
+      tv->Ynew_.Fill(g);
+      tv->initial_forcing_.Fill(g);
+      tv->Yerror_.Fill(g);
+      for (auto& k : tv->K_)
+        k.Fill(g);
+    }
+    else
+    {
+      auto* tv = static_cast<micm::BackwardEulerTemporaryVariables<DM>*>(st.temporary_variables_.get());
+      tv->Yn_.Fill(g);
+      tv->forcing_.Fill(g);
+    }
+  }
+
+  template<class BuilderT, class ParamsT>
+  std::string runHist(Tok& t, std::size_t integ, std::size_t ncell, std::size_t ns, const std::vector<micm::Process>& procs,
+                      const ParamsT& params)
+  {
+    std::vector<micm::Species> sp;
+    for (std::size_t i = 0; i < ns; ++i)
+      sp.push_back(micm::Species("s" + std::to_string(i)));
+    auto solver = BuilderT(params)
+                      .SetSystem(micm::System(micm::SystemParameters{ .gas_phase_ = micm::Phase{ sp } }))
+                      .SetReactions(procs)
+                      .SetNumberOfGridCells(ncell)
+                      .SetReorderState(false)
+                      .Build();
+    using ST = decltype(solver.GetState());
+    std::vector<std::unique_ptr<ST>> store(8);
+    std::size_t nrx = procs.size();
+    std::size_t nops = t.nat();
+    std::string out = "hist ";
+    for (std::size_t iop = 0; iop < nops; ++iop)
+    {
+      std::string op = t.str();
+      std::string r = guarded(
+          [&]() -> std::string
+          {
+            if (op == "new")
+            {
+              auto s = t.nat();
+              store[s] = std::make_unique<ST>(solver.GetState());
+              return "ok";
+            }
+            if (op == "setc")
+            {
+              auto s = t.nat();
+              auto i = t.nat();
+              auto vals = t.flts(ncell);
+              if (!store[s])
+                return "nostate";
+              store[s]->SetConcentration(micm::Species("s" + std::to_string(i)), vals);
+              return "ok";
+            }
+            if (op == "setk")
+            {
+              auto s = t.nat();
+              auto vals = t.flts(ncell * nrx);
+              if (!store[s])
+                return "nostate";
+              for (std::size_t c = 0; c < ncell; ++c)
+                for (std::size_t k = 0; k < nrx; ++k)
+                  store[s]->rate_constants_[c][k] = vals[c * nrx + k];
+              return "ok";
+            }
+            if (op == "settol")
+            {
+              auto s = t.nat();
+              auto at = t.flts(ns);
+              double rt = t.flt();
+              if (!store[s])
+                return "nostate";
+              store[s]->SetAbsoluteTolerances(at);
+              store[s]->SetRelativeTolerance(rt);
+              return "ok";
+            }
+            if (op == "garbage")
+            {
+              auto s = t.nat();
+              double g = t.flt();
+              if (!store[s])
+                return "nostate";
+              fillScratch(*store[s], integ, g);
+              return "ok";
+            }
+            if (op == "solve")
+            {
+              auto s = t.nat();
+              double dt = t.flt();
+              if (!store[s])
+                return "nostate";
+              auto res = solver.Solve(dt, *store[s]);
+              Out o;
+              o.os << statusName(res.state_) << ' ' << hexd(res.final_time_) << ' ' << res.stats_.function_calls_ << ','
+                   << res.stats_.jacobian_updates_ << ',' << res.stats_.number_of_steps_ << ',' << res.stats_.accepted_ << ','
+                   << res.stats_.rejected_ << ',' << res.stats_.decompositions_ << ',' << res.stats_.solves_ << ' ';
+              o.first = true;
+              printDense(o, store[s]->variables_);
+              return o.os.str();
+            }
+            if (op == "dump")
+            {
+              auto s = t.nat();
+              if (!store[s])
+                return "nostate";
+              Out o;
+              printDense(o, store[s]->variables_);
+              return o.os.str();
+            }
+            if (op == "cpc")
+            {
+              auto s = t.nat();
+              auto d = t.nat();
+              if (!store[s])
+              {
+                store[d].reset();
+                return "ok";
+              }
+              auto copy = std::make_unique<ST>(*store[s]);
+              store[d] = std::move(copy);
+              return "ok";
+            }
+            if (op == "cpa")
+            {
+              auto s = t.nat();
+              auto d = t.nat();
+              if (!store[s])
+              {
+                store[d].reset();
+                return "ok";
+              }
+              if (!store[d])
+                store[d] = std::make_unique<ST>(solver.GetState());
+              *store[d] = *store[s];
+              return "ok";
+            }
+            if (op == "mvc")
+            {
+              auto s = t.nat();
+              auto d = t.nat();
+              if (!store[s])
+              {
+                store[d].reset();
+                return "ok";
+              }
+              if (s == d)
+                return "ok";
+              auto moved = std::make_unique<ST>(std::move(*store[s]));
+              store[s].reset();
+              store[d] = std::move(moved);
+              return "ok";
+            }
+            if (op == "mva")
+            {
+              auto s = t.nat();
+              auto d = t.nat();
+              if (!store[s])
+              {
+                store[d].reset();
+                return "ok";
+              }
+              if (s == d)
+                return "ok";
+              if (!store[d])
+                store[d] = std::make_unique<ST>(solver.GetState());
+              *store[d] = std::move(*store[s]);
+              store[s].reset();
+              return "ok";
+            }
+            auto s = t.nat();
+            if (!store[s])
+              return "nostate";
+            if (op == "bad_species")
+              store[s]->SetConcentration(micm::Species("nosuch"), std::vector<double>(ncell, 1.0));
+            else if (op == "bad_conc_len")
+              store[s]->SetConcentration(micm::Species("s0"), std::vector<double>(ncell + 1, 1.0));
+            else if (op == "bad_label")
+              store[s]->SetCustomRateParameter("nosuch", std::vector<double>(ncell, 1.0));
+            else if (op == "bad_param_len")
+              store[s]->SetCustomRateParameter("r0", std::vector<double>(ncell + 2, 1.0));
+            else if (op == "bad_conc_scalar")
+              store[s]->SetConcentration(micm::Species("s0"), store[s]->variables_[0][0]);
+            else if (op == "bad_unsafe_cells")
+              store[s]->UnsafelySetCustomRateParameters(std::vector<std::vector<double>>(ncell + 1, std::vector<double>(nrx, 0.0)));
+            else if (op == "bad_unsafe_params")
+              store[s]->UnsafelySetCustomRateParameters(std::vector<std::vector<double>>(ncell, std::vector<double>(nrx + 1, 0.0)));
+            else
+              return "bad-op";
+            return "ok";
+          });
+      out += (iop ? " | " : "") + r;
+    }
+    return out;
+  }
+
+  template<std::size_t L, bool CSC, std::size_t KIND>
+  std::string SolveCfg<L, CSC, KIND>::hist(Tok& t, std::size_t integ)
+  {
+    std::size_t ncell = t.nat();
+    std::size_t ns = t.nat();
+    auto procs = mech(t);
+    if (integ == 0)
+    {
+      auto p = rosParams(t);
+      return runHist<typename BuilderOf<micm::RosenbrockSolverParameters, L, CSC, KIND>::type>(t, integ, ncell, ns, procs, p);
+    }
+    auto p = beParams(t);
+    return runHist<typename BuilderOf<micm::BackwardEulerSolverParameters, L, CSC, KIND>::type>(t, integ, ncell, ns, procs, p);
+  }
+
+  // ---------------------------------------------------------------- rate constants (C15)
+  struct RateSpec
+  {
+    std::size_t kind, npr;
+    std::vector<double> v;
+    std::string label;
+    bool alkoxy = false;
+    int n = 0;
+  };
+
+  template<std::size_t L>
+  std::string DenseCfg<L>::rates(Tok& t, std::size_t ncell, std::size_t nproc)
+  {
+    using DM = typename DenseOf<L>::type;
+    using SM = SparseOf<L, false>;
+    std::vector<micm::Process> procs;
+    auto a = micm::Species("a");
+    std::vector<std::string> labels;
+    for (std::size_t i = 0; i < nproc; ++i)
+    {
+      std::size_t kind = t.nat();
+      std::size_t npr = t.nat();
+      std::vector<micm::Species> reactants{ a };
+      for (std::size_t k = 0; k < npr; ++k)
+      {
+        micm::Species m("M" + std::to_string(k));
+        m.SetThirdBody();
+        reactants.push_back(m);
+      }
+      micm::ProcessBuilder pb = micm::Process::Create();
+      pb.SetReactants(reactants);
+      pb.SetProducts({});
+      switch (kind)
+      {
+        case 0:
+        {
+          auto v = t.flts(5);
+          pb.SetRateConstant(micm::ArrheniusRateConstant({ .A_ = v[0], .B_ = v[1], .C_ = v[2], .D_ = v[3], .E_ = v[4] }));
+          break;
+        }
+        case 1:
+        {
+          auto v = t.flts(8);
+          pb.SetRateConstant(micm::TroeRateConstant({ .k0_A_ = v[0],
+                                                      .k0_B_ = v[1],
+                                                      .k0_C_ = v[2],
+                                                      .kinf_A_ = v[3],
+                                                      .kinf_B_ = v[4],
+                                                      .kinf_C_ = v[5],
+                                                      .Fc_ = v[6],
+                                                      .N_ = v[7] }));
+          break;
+        }
+        case 2:
+        {
+          auto v = t.flts(8);
+          pb.SetRateConstant(micm::TernaryChemicalActivationRateConstant({ .k0_A_ = v[0],
+                                                                           .k0_B_ = v[1],
+                                                                           .k0_C_ = v[2],
+                                                                           .kinf_A_ = v[3],
+                                                                           .kinf_B_ = v[4],
+                                                                           .kinf_C_ = v[5],
+                                                                           .Fc_ = v[6],
+                                                                           .N_ = v[7] }));
+          break;
+        }
+        case 3:
+        {
+          bool alk = t.nat() != 0;
+          auto v = t.flts(3);
+          int n = (int)t.nat();
+          pb.SetRateConstant(micm::BranchedRateConstant(
+              { .branch_ = alk ? micm::BranchedRateConstantParameters::Branch::Alkoxy
+                               : micm::BranchedRateConstantParameters::Branch::Nitrate,
+                .X_ = v[0],
+                .Y_ = v[1],
+                .a0_ = v[2],
+                .n_ = n }));
+          break;
+        }
+        case 4:
+        {
+          auto v = t.flts(3);
+          pb.SetRateConstant(micm::TunnelingRateConstant({ .A_ = v[0], .B_ = v[1], .C_ = v[2] }));
+          break;
+        }
+        case 5:
+        {
+          std::string label = t.str();
+          auto v = t.flts(3);  // diffusion coefficient, molecular weight, reaction probability
+          micm::Species sp("a");
+          sp.SetProperty<double>(micm::property_keys::GAS_DIFFUSION_COEFFICIENT, v[0]);
+          sp.SetProperty<double>(micm::property_keys::MOLECULAR_WEIGHT, v[1]);
+          pb.SetRateConstant(
+              micm::SurfaceRateConstant({ .label_ = label, .species_ = sp, .reaction_probability_ = v[2] }));
+          labels.push_back(label + ".effective radius [m]");
+          labels.push_back(label + ".particle number concentration [# m-3]");
+          break;
+        }
+        default:
+        {
+          std::string label = t.str();
+          double sc = t.flt();
+          pb.SetRateConstant(micm::UserDefinedRateConstant({ .label_ = label, .scaling_factor_ = sc }));
+          labels.push_back(label);
+          break;
+        }
+      }
+      procs.push_back(pb);
+    }
+    using B = micm::CpuSolverBuilder<micm::RosenbrockSolverParameters, DM, SM>;
+    auto solver = B(micm::RosenbrockSolverParameters::ThreeStageRosenbrockParameters())
+                      .SetSystem(micm::System(micm::SystemParameters{ .gas_phase_ = micm::Phase{ std::vector<micm::Species>{ a } } }))
+                      .SetReactions(procs)
+                      .SetNumberOfGridCells(ncell)
+                      .Build();
+    auto state = solver.GetState();
+    for (std::size_t c = 0; c < ncell; ++c)
+    {
+      state.conditions_[c].temperature_ = t.flt();
+      state.conditions_[c].pressure_ = t.flt();
+      state.conditions_[c].air_density_ = t.flt();
+    }
+    auto vals = t.flts(ncell * labels.size());
+    for (std::size_t l = 0; l < labels.size(); ++l)
+    {
+      std::vector<double> col(ncell);
+      for (std::size_t c = 0; c < ncell; ++c)
+        col[c] = vals[c * labels.size() + l];
+      state.SetCustomRateParameter(labels[l], col);
+    }
+    solver.CalculateRateConstants(state);
+    Out o;
+    o.os << "rates";
+    o.key("labels");
+    for (auto& l : labels)
+    {
+      std::string x = l;
+      for (auto& ch : x)
+        if (ch == ' ')
+          ch = '_';
+      o.s(x);
+    }
+    o.key("k");
+    printDense(o, state.rate_constants_);
+    return o.os.str();
+  }
 }  // namespace vh
